@@ -11,7 +11,7 @@ CADICAL = ["--sat-solver", "cadical"]
 MINISAT = []  # cbmc default
 
 SMALL = [1, 3, 8, 16, 24]           # every operation
-HEAVY = [1, 3, 24]               # quick-tier sizes of the expensive units (growth, memmove family); the rest of SMALL is thorough-only
+HEAVY = [1, 3, 16, 24]              # quick-tier sizes of the expensive units (growth, memmove family); the rest of SMALL is thorough-only
 LARGE = [127, 128, 129, 300]     # only where CBMC's array theory copes (cost grows with size^2), see meta.json
 THOROUGH_ONLY = {}               # unit name -> True
 INL = "include/aws/common/array_list.inl"
@@ -31,21 +31,21 @@ AL = [
  ("front", ["aws_array_list_front"], R, {}, SMALL + LARGE),
  ("back", ["aws_array_list_back"], R, {}, SMALL),
  ("calc_necessary_size", ["aws_array_list_calc_necessary_size"], R, {}, SMALL),
- ("ensure_capacity", ["aws_array_list_ensure_capacity"], R + ["aws_array_list_calc_necessary_size", "aws_mem_acquire", "aws_mem_release"], {"timeout": 900}, HEAVY + [-8, -16]),
- ("set_at", ["aws_array_list_set_at"], GROW, {"timeout": 1200}, HEAVY + [-8, -16]),
- ("push_back", ["aws_array_list_push_back"], R + ["aws_array_list_set_at", "aws_last_error"], {"timeout": 1200}, HEAVY + [-8, -16]),
- ("push_front", ["aws_array_list_push_front"], GROW + ["aws_last_error", "memmove"], {"timeout": 1200}, HEAVY + [-8, -16]),
+ ("ensure_capacity", ["aws_array_list_ensure_capacity"], R + ["aws_array_list_calc_necessary_size", "aws_mem_acquire", "aws_mem_release"], {"timeout": 900}, HEAVY + [-8]),
+ ("set_at", ["aws_array_list_set_at"], GROW, {"timeout": 1200}, HEAVY + [-8]),
+ ("push_back", ["aws_array_list_push_back"], R + ["aws_array_list_set_at", "aws_last_error"], {"timeout": 1200}, HEAVY + [-8]),
+ ("push_front", ["aws_array_list_push_front"], GROW + ["aws_last_error", "memmove"], {"timeout": 1200}, HEAVY + [-8]),
  ("pop_back", ["aws_array_list_pop_back"], R, {}, SMALL),
  ("clear", ["aws_array_list_clear"], R, {}, SMALL + LARGE),
- ("pop_front_n", ["aws_array_list_pop_front_n"], R + ["aws_array_list_clear", "memmove"], {"timeout": 900}, HEAVY + [-8, -16]),
+ ("pop_front_n", ["aws_array_list_pop_front_n"], R + ["aws_array_list_clear", "memmove"], {"timeout": 900}, HEAVY + [-8]),
  ("pop_front", ["aws_array_list_pop_front"], R + ["aws_array_list_pop_front_n"], {"solver": MINISAT}, SMALL),
- ("erase", ["aws_array_list_erase"], R + ["aws_array_list_pop_front", "aws_array_list_pop_back", "memmove"], {"timeout": 1200}, HEAVY + [-8, -16]),
+ ("erase", ["aws_array_list_erase"], R + ["aws_array_list_pop_front", "aws_array_list_pop_back", "memmove"], {"timeout": 1200}, HEAVY + [-8]),
  ("mem_swap_two_objects", ["aws_array_list_mem_swap"], R, {"mode": "complete", "unwind": 4}, SMALL + LARGE),
 ] + [("mem_swap_slots_%d%d" % ab, ["aws_array_list_mem_swap"], R, {"mode": "complete", "unwind": 4, "harness": "h_mem_swap_%d%d" % ab}, SMALL + LARGE)
      for ab in ((0, 1), (1, 0), (0, 2), (2, 0), (1, 2), (2, 1))] + [
- ("swap", ["aws_array_list_swap"], R + ["aws_array_list_mem_swap"], {"solver": MINISAT, "timeout": 900}, [1, 3, 8, -16, -24]),
- ("copy", ["aws_array_list_copy"], R + ["aws_mem_acquire", "aws_mem_release"], {"timeout": 900}, HEAVY + [-8, -16]),
- ("shrink_to_fit", ["aws_array_list_shrink_to_fit"], R + ["aws_mem_acquire", "aws_mem_release"], {"timeout": 900}, HEAVY + [-8, -16]),
+ ("swap", ["aws_array_list_swap"], R + ["aws_array_list_mem_swap"], {"solver": MINISAT, "timeout": 900}, [1, 3, 8, 16, -24]),
+ ("copy", ["aws_array_list_copy"], R + ["aws_mem_acquire", "aws_mem_release"], {"timeout": 900}, HEAVY + [-8]),
+ ("shrink_to_fit", ["aws_array_list_shrink_to_fit"], R + ["aws_mem_acquire", "aws_mem_release"], {"timeout": 900}, HEAVY + [-8]),
  ("swap_contents", ["aws_array_list_swap_contents"], R, {}, SMALL),
  ("init_dynamic", ["aws_array_list_init_dynamic"], R + ["aws_mem_acquire"], {}, SMALL + LARGE),
  ("init_static", ["aws_array_list_init_static"], R, {}, SMALL + LARGE),
